@@ -311,6 +311,8 @@ def gen_program(ctx, rng, idx, fault=None):
         extra = ["scope"] * rng.choice([0, 2, 3]) + ["service"] * rng.choice([0, 1, 2])
         m = gen.model(includes=incs, extra_kinds=extra)
         break_typedef_cycles(m)
+        # ParseFrugal rejects values that do not conform to their declared type (repo fix c6ad503): redraw them
+        G.conform_values(gen, m, {G.include_name(v): im for v, im in incs})
         if rng.random() < 0.3:
             G.alias_throws(gen, m)          # throws through a typedef of an exception: valid
         models[names[i]] = m
@@ -320,8 +322,12 @@ def gen_program(ctx, rng, idx, fault=None):
         # one file of the program (the root or a file it includes, directly or not) gets one semantic fault
         reach = reachable_files(names[0], models)
         victim = rng.choice(sorted(reach))
+        models[victim]["_self"] = os.path.basename(victim.decode()).encode()
         touched = G.inject_fault(gens[victim], models[victim], fault)
     files = {n: G.Renderer(rng).render(models[n]) for n in names}
+    for n in names:
+        for rel, text in models[n].pop("_extra_files", {}).items():
+            files[os.path.normpath(os.path.join(os.path.dirname(n.decode()), rel.decode())).encode()] = text
     prog = {"files": files, "root": names[0], "models": models}
     if fault is not None:
         prog.update({"mutated": True, "expect": "reject", "fault": fault, "fault_in": victim.decode(),
@@ -656,6 +662,8 @@ def run(ctx, br):
             gen = G.Gen(rng)
             m = G.hazard_model(gen, hz)
             break_typedef_cycles(m)
+            # the hazard is the last declaration (const E c = E.B): the context around it gets conforming values
+            G.conform_values(gen, m, {}, keep={m["decls"][-1][1]["name"]})
             name = ("hz%d.frugal" % i).encode()
             progs.append({"files": {name: G.Renderer(rng, plain=True).render(m)}, "root": name, "models": {name: m},
                           "hazard": hz})
